@@ -349,12 +349,16 @@ func ValidateLogMultiConfig(cfg *configpb.LogMultiConfig) (LogBackendMap, error)
 	}
 
 	// Check that logs all reference a defined backend.
-	logIDMap := make(map[string]bool)
+	type backendTree struct {
+		backend string
+		treeID  int64
+	}
+	logIDMap := make(map[backendTree]bool)
 	for _, logCfg := range cfg.GetLogConfigs().GetConfig() {
 		if _, ok := backendMap[logCfg.LogBackendName]; !ok {
 			return nil, fmt.Errorf("log config: references undefined backend: %s: %v", logCfg.LogBackendName, logCfg)
 		}
-		logIDKey := fmt.Sprintf("%s-%d", logCfg.LogBackendName, logCfg.LogId)
+		logIDKey := backendTree{logCfg.LogBackendName, logCfg.LogId}
 		if ok := logIDMap[logIDKey]; ok {
 			return nil, fmt.Errorf("log config: dup tree id: %d for: %v", logCfg.LogId, logCfg)
 		}
